@@ -66,6 +66,10 @@ func needsChild(spec *RunSpec) bool {
 		if strings.HasSuffix(f.Path, ".plist") && strings.Contains(f.Src.Fix, "BinaryApp") {
 			return true
 		}
+		// decompression bombs allocate gigabytes: keep them (and the memory watchdog they trip) out of the worker
+		if f.Src.Elf != nil && f.Src.Elf.InflateMiB >= 64 {
+			return true
+		}
 		// saferwall/pe sizes allocations from header fields: a mutated PE file can exhaust the
 		// memory of the process (fatal, not a panic)
 		if spec.OS == "windows" && strings.Contains(f.Src.Fix, "dotnetpe/testdata") && f.Src.HasOps() {
@@ -169,6 +173,21 @@ func evalInChild(id string, sc any) *sim.Outcome {
 func crashSite(log string) (what, site string) {
 	lines := strings.Split(log, "\n")
 	site = "unknown"
+	if strings.Contains(log, "fatal error: stack overflow") {
+		// unbounded recursion: the function that recurses is the one that fills the stack trace
+		count := map[string]int{}
+		best := ""
+		for _, l := range lines {
+			if f := funcOf(l); f != "" && strings.Contains(strings.SplitN(f, "/", 2)[0], ".") && strings.Contains(f, "/") && !strings.HasPrefix(f, "verif/") {
+				if count[f]++; count[f] > count[best] || (count[f] == count[best] && f < best) {
+					best = f
+				}
+			}
+		}
+		if best != "" {
+			return "fatal error: stack overflow (goroutine stack exceeds the 1 GB limit)", "stack-overflow:" + best
+		}
+	}
 	for i, l := range lines {
 		if strings.HasPrefix(l, "panic: ") || strings.HasPrefix(l, "fatal error: ") || strings.HasPrefix(l, "unexpected fault address") {
 			if what == "" {
